@@ -67,12 +67,13 @@ def _table_entry(m, obj):
 
 def _run_schedule(item):
     """in a forked child of the prepared parent"""
-    target, nthreads, plan = item
+    target, nthreads, plan = item[:3]
+    on_main = item[3] if len(item) > 3 else None
     m, bodies = _STATE
     from sched import LineScheduler
     pkg = os.path.dirname(m.__file__)
     sch = LineScheduler(pkg)
-    res = sch.run([bodies[target]] * nthreads, plan)
+    res = sch.run([bodies[target]] * nthreads, plan, on_main=on_main)
     names = "ABC"
     oids = {}
 
@@ -142,9 +143,18 @@ def _explore(args):
         for _ in range(20 if tier == "quick" else 300):
             plan = [(rng.randrange(2), rng.randint(1, 4)) for _ in range(rng.randint(3, 10))]
             items.append((target, 2, plan))
+        # one of the threads is the process's MAIN thread (the scheduling moves to a helper thread): every
+        # one-preemption schedule both ways round, and random ones
+        for i in range(0, na + 1):
+            items.append((target, 2, [(0, i), (1, 10 ** 6)], 0))
+            items.append((target, 2, [(0, i), (1, 10 ** 6)], 1))
+        for _ in range(10 if tier == "quick" else 150):
+            plan = [(rng.randrange(2), rng.randint(1, 4)) for _ in range(rng.randint(3, 10))]
+            items.append((target, 2, plan, rng.randrange(2)))
         results = parallel_isolated(_run_schedule, items)
         for it, r in zip(items, results):
             r["target"], r["nthreads"], r["plan"] = it[0], it[1], it[2]
+            r["on_main"] = it[3] if len(it) > 3 else None
             out.append(r)
     return out
 
@@ -190,12 +200,15 @@ def run_c20(tier, seed):
         r = min(rs, key=lambda x: len(x["plan"]))
         shape = _shape(r["hist"])
         v.violations.append({"prop": "C20", "key": "not-linearizable:%s:%s" % (r["target"].split("_")[0], shape),
-                             "detail": "target=%s threads=%d plan=%s history=%s%s" % (
-                                 r["target"], r["nthreads"], r["plan"], [(e["ev"], e["thr"], e["oid"]) for e in r["hist"]],
+                             "detail": "target=%s threads=%d plan=%s%s history=%s%s" % (
+                                 r["target"], r["nthreads"], r["plan"],
+                                 "" if r.get("on_main") is None else " (thread %s is the main thread)" % "ABC"[r["on_main"]],
+                                 [(e["ev"], e["thr"], e["oid"]) for e in r["hist"]],
                                  " exception=" + r["exc"] if r["exc"] else ""),
-                             "path": [r["target"], r["nthreads"], r["plan"]]})
+                             "path": [r["target"], r["nthreads"], r["plan"], r.get("on_main")]})
     v.extra["schedules"] = {"runs": len(runs), "distinct_histories": len(hists), "accepted": len(accepted),
                             "rejected_runs": nrej, "runs_with_blocked_thread": sum(1 for r in runs if r["blocked"]),
+                            "runs_with_a_thread_on_the_main_thread": sum(1 for r in runs if r.get("on_main") is not None),
                             "targets": TARGETS}
     v.rule = ("cases = schedules executed on the real library under the line scheduler, each giving a call/return history "
               "validated by TLC against InternAtomic; non-trivial = schedules in which a second thread was called before "
